@@ -1,7 +1,9 @@
 package grpd
 
 import (
+	"encoding/json"
 	"fmt"
+	"github.com/sarchlab/akita/v5/hooking"
 	"runtime/debug"
 	"sort"
 	"strings"
@@ -74,6 +76,7 @@ type c09Node struct {
 	next    int
 	fwdDst  messaging.RemotePort
 	got     []tmsg
+	gotAt   []uint64
 	sent    []tmsg
 	tc      *modeling.Component[c09Spec, c09State, modeling.None]
 	ed      *modeling.EventDrivenComponent[c09Spec, c09State, modeling.None]
@@ -113,6 +116,7 @@ func (n *c09Node) act(now uint64) bool {
 					break
 				}
 				n.got = append(n.got, m.(tmsg))
+				n.gotAt = append(n.gotAt, now)
 				progress = true
 			}
 		}
@@ -121,6 +125,7 @@ func (n *c09Node) act(now uint64) bool {
 		for in.PeekIncoming() != nil && out.CanSend() {
 			m := in.RetrieveIncoming().(tmsg)
 			n.got = append(n.got, m)
+			n.gotAt = append(n.gotAt, now)
 			fm := tmsg{
 				MsgMeta: messaging.MsgMeta{ID: timing.GetIDGenerator().Generate(), Src: out.AsRemote(), Dst: n.fwdDst},
 				Seq:     m.Seq, Body: m.Body,
@@ -309,6 +314,14 @@ func runC09(cs c09Case) (string, []lib.Problem) {
 		}
 		s.script = append(s.script, p)
 	}
+	if c09Observe&1 != 0 {
+		eng.AcceptHook(c09NopHook{})
+	}
+	if c09Observe&2 != 0 {
+		for _, p := range rig.ports {
+			p.AcceptHook(c09NopHook{})
+		}
+	}
 	drv := newDriver(eng)
 	for _, s := range sources {
 		if len(s.script) == 0 {
@@ -443,8 +456,62 @@ func runC09(cs c09Case) (string, []lib.Problem) {
 			pr.bad("ledger:sent-not-delivered", "messages %v never reached their sink although nothing is stuck; %s", missing, describe())
 		}
 	}
+	if c09Fingerprint != nil {
+		var sb strings.Builder
+		for _, k := range sinks {
+			fmt.Fprintf(&sb, "%s:", k.name)
+			for i, m := range k.got {
+				fmt.Fprintf(&sb, " #%d@%d", m.Seq, k.gotAt[i])
+			}
+			sb.WriteString("; ")
+		}
+		fmt.Fprintf(&sb, "end@%d", uint64(eng.CurrentTime()))
+		*c09Fingerprint = sb.String()
+	}
 	out := fmt.Sprintf("%s/%d %s got%d/%d end%d", cs.Shape, cs.Conns, strings.Join(cs.Kinds, ""), ngot, len(cs.Msgs), uint64(eng.CurrentTime())/500)
 	return out, pr.list
+}
+
+// Observer seam for C33 (grpc2): c09Observe bit 0 attaches a no-op hook to the
+// engine, bit 1 a no-op hook to every port; c09Fingerprint receives what every
+// sink got and when, plus the final time.
+var (
+	c09Observe     int
+	c09Fingerprint *string
+)
+
+type c09NopHook struct{}
+
+func (c09NopHook) Func(hooking.HookCtx) {}
+
+// C33RelayCases yields the C09 cases (quick bounds) that have two connections
+// or an event-driven component, as opaque JSON.
+func C33RelayCases(c *lib.Ctx, yield func(raw json.RawMessage, label string) bool) {
+	enumC09(c09BoundsFor(c), func(cs c09Case) bool {
+		ed := false
+		for _, k := range cs.Kinds {
+			ed = ed || k == "E"
+		}
+		if cs.Conns < 2 || !ed || cs.Kick != "later" {
+			return true
+		}
+		raw, _ := json.Marshal(cs)
+		return yield(raw, fmt.Sprintf("%s/%d %s", cs.Shape, cs.Conns, strings.Join(cs.Kinds, "")))
+	})
+}
+
+// C33RelayRun runs one such case under an observer mask and returns the
+// fingerprint (and the case's own problems, which C09 judges).
+func C33RelayRun(raw json.RawMessage, observe int) (string, error) {
+	var cs c09Case
+	if err := json.Unmarshal(raw, &cs); err != nil {
+		return "", err
+	}
+	var fp string
+	c09Observe, c09Fingerprint = observe, &fp
+	defer func() { c09Observe, c09Fingerprint = 0, nil }()
+	runC09(cs)
+	return fp, nil
 }
 
 // ---------------------------------------------------------------------------
